@@ -108,6 +108,7 @@ def run(rep, tier):
         located(rep, meta, sfx)
         zero(rep, meta, sfx)
         arith(rep, meta, sfx)
+        textarg(rep, meta, sfx)
         visited(rep, meta, sfx)
         unroll_phase(rep, meta, sfx)
     render(rep, facts.facts("default").crate("pest"))
@@ -570,3 +571,40 @@ def render(rep, pest):
                     "core::option::Option::unwrap", "core::option::Option::expect", "core::result::Result::unwrap",
                     "core::result::Result::expect")) and not any("unreachable" in e for e in (x.get("exp") or [])):
                 r.violation(key, where(x), "%s can panic while rendering (%s)" % (fn["name"], cal.split("::")[-1]))
+
+
+# ------------------------------------------------------------------ TEXT (the text errors are located in)
+
+def textarg(rep, meta, sfx):
+    r = rep.rule("C09.TEXT" + sfx, 1,
+                 "every error carries a location inside the text the caller passed: the front-end entry points hand their "
+                 "`&str` parameter itself to the reader (parser::parse / PestParser::parse), not a trimmed or re-sliced "
+                 "copy - offsets and line/column of errors produced further down are relative to what the reader was given")
+    n = 0
+    for fn in meta.bodies:
+        if fn.get("body") is None or fn.get("exp") or "::tests::" in fn["path"] or not fn.get("exported"):
+            continue
+        if not fn["path"].startswith("pest_meta::") or fn["path"].startswith("pest_meta::parser::grammar"):
+            continue
+        strs = [p["id"] for p in fn["params"] if p.get("k") == "PBind" and str(p.get("ty", "")).replace("&", "").strip().endswith("str")]
+        if not strs:
+            continue
+        for x in walk(fn["body"]):
+            if kind(x) in ("Call", "MethodCall") and isinstance(callee(x), str) and (
+                    callee(x) == "pest_meta::parser::parse" or callee(x).endswith("Parser>::parse") or callee(x).endswith("::PestParser::parse")
+                    or callee(x) == "pest::parser::Parser::parse"):
+                args = hirq.call_args(x)
+                texts = [a for a in args if str(peel(a).get("ty", "")).replace("&", "").strip().endswith("str")]
+                if not texts:
+                    continue
+                n += 1
+                key = fn["path"].replace("pest_meta::", "")
+                r.instance(key, where(x))
+                a = peel(texts[-1])
+                if not (kind(a) == "Path" and a.get("res") == "local" and a["id"] in strs):
+                    r.violation(key, where(x),
+                                "%s reads `%s`, which is not its own text parameter: errors are located in a text the caller "
+                                "does not have (e.g. a byte-order mark stripped first shifts every offset by 3, possibly "
+                                "into the middle of a character)" % (fn["name"], hirq.expr_text(texts[-1])[:40]))
+    if n == 0:
+        r.lost("front-end entry points that hand a text to the reader")
